@@ -450,6 +450,19 @@ Section WithHash.
     map (fun x : session_step =>
            let '(rp, first, rsp, cnonce) := x in digest_exchange rp first rsp user pass cnonce) xs.
 
+  (* Retry attempts of one execution (Request.do's loop): every attempt sends the request without
+     credentials, so every attempt is challenged and runs the middleware afresh - the attempts
+     are the steps of a session with the same first request ([x] = origin's answer, client nonce). *)
+  Definition retry_attempts (user pass : bytes) (first : wire_request) (xs : list (first_response * bytes))
+    : list (list wire_request) :=
+    digest_session user pass (map (fun x : first_response * bytes => (true, first, fst x, snd x)) xs).
+
+  (* Whose transport carries the re-send: the middleware is called with the client of the request
+     being executed (Request.do passes r.client) and uses THAT client - not the one it was
+     installed on, which differs for a middleware inherited through Client.Clone. *)
+  Definition resend_route (installed_on calling : nat) : nat := calling.
+  Definition resend_route_bound (installed_on calling : nat) : nat := installed_on.   (* a seeded change *)
+
   (* ---------- RFC 7616, transcribed independently of the code above ---------- *)
 
   (* section 6.1 registry + section 3.3: name -> (hash function, session variant);
